@@ -1082,6 +1082,15 @@ def event_graph(fn, role_of, ret_local=0, max_states=40000, branch_role=None, st
                     inst_ = (t.j.get("callee_inst") or "").lstrip("<")
                     if inst_.startswith(("std::option::Option", "core::option::Option", "Option<")) != (("flip", t.args[0].place.local) in aliases):
                         aliases.add(("flip", t.dest.local))
+                # conversions that keep the outcome: Result<->Option (`ok`, `err`, `ok_or*`) and payload maps
+                cn_ = t.j.get("callee_name")
+                ci_ = (t.callee or "")
+                if cn_ in ("ok", "err", "ok_or", "ok_or_else", "map_err", "map", "copied", "cloned", "as_ref", "as_deref", "as_mut") and t.args and t.args[0].place is not None and t.args[0].place.is_local() \
+                        and t.args[0].place.local in aliases and (ci_.startswith("std::result::Result") or ci_.startswith("std::option::Option") or ci_.startswith("core::result::Result") or ci_.startswith("core::option::Option")):
+                    aliases.add(t.dest.local)
+                    toggles = cn_ in ("ok", "ok_or", "ok_or_else")         # Ok(0) <-> Some(1)
+                    if (("flip", t.args[0].place.local) in aliases) != toggles:
+                        aliases.add(("flip", t.dest.local))
                 if t.dest.local == ret_local:
                     retv = "call:%s" % short(t.callee)
                     rv_ = residual_variant(t) if t.j.get("callee_name") == "from_residual" else None
@@ -1380,6 +1389,8 @@ def resolve_promoted(fn, o):
             r = origin_of_local(pf, 0).strip()
             if r.k == "const" and "v" in r.a:
                 return r
+            if r.k == "agg" and not r.kids and "::" in str(r.a) and not str(r.a).startswith("closure:"):
+                return r          # a unit variant (`&Follow::Always` hoisted into a constant)
         return o
     return Origin(o.k, o.a, [resolve_promoted(fn, k) for k in o.kids], o.bb)
 
